@@ -586,7 +586,12 @@ func (s *Server) handleFileTransfer(ctx context.Context, rwc io.ReadWriter) erro
 
 	// The first 16 bytes contain the file transfer.
 	var t transfer
-	if _, err := io.CopyN(&t, rwc, 16); err != nil {
+	preamble := make([]byte, 16)
+	n, err := io.ReadFull(rwc, preamble) // the 16 bytes may arrive in several segments
+	if n == 0 && err != nil {
+		return fmt.Errorf("error reading file transfer: %w", err)
+	}
+	if _, err := t.Write(preamble[:n]); err != nil {
 		return fmt.Errorf("error reading file transfer: %w", err)
 	}
 
